@@ -258,6 +258,7 @@ class PropertyCheck:
         self.violations = []       # (case, message, kind)
         self.disagreements = []    # (case, message)
         self.known_hits = []
+        self.known_found = []
         self.extra = {}
         self.excluded = {}
 
@@ -343,7 +344,11 @@ class PropertyCheck:
                 warnings.simplefilter('ignore')
                 msg = self.oracle(case, impl)
             if msg:
-                self.violations.append((case, msg, 'oracle'))
+                known = self.match_known(case, msg)
+                if known is not None:
+                    self.known_found.append((known, case, msg))
+                else:
+                    self.violations.append((case, msg, 'oracle'))
             results.append(impl)
         if oracle_only:
             return
@@ -433,6 +438,14 @@ class PropertyCheck:
             self.finish(lean, reported)
             return 2
 
+        # 0. genuine defects recorded (not repaired) in known_findings.json: reported, not alarmed
+        seen_known = set()
+        for known, case, msg in self.known_found:
+            key = known.get('id') or known.get('what')
+            if key not in seen_known:
+                seen_known.add(key)
+                print('KNOWN-FINDING: property=%s %s' % (self.pid, known.get('what')))
+                self.known_hits.append(known.get('what'))
         # 1. oracle failures are violations with a concrete failing input
         seen = set()
         for case, msg, kind in self.violations:
